@@ -38,9 +38,9 @@ grep -h "VIOLATION\|check_exit\|INCONCLUSIVE" $out/check.log | cut -c1-300 | hea
 python3 - "$src" "$out" "$name" "$id" <<'PY'
 import json,sys,re
 src,out,name,pid=sys.argv[1:5]
-meta=json.load(open(src+'/meta.json'))
-conf=open(out+'/confirm.log').read().strip().split('\n')[-1]
-chk=open(out+'/check.log').read()
+meta=json.loads(open(src+'/meta.json',errors='replace').read())
+conf=open(out+'/confirm.log',errors='replace').read().strip().split('\n')[-1]
+chk=open(out+'/check.log',errors='replace').read()
 meta['seed']=name
 meta['confirmed_by_me']=conf
 meta['check_cmd']='./check %s (quick tier unless noted)'%pid
